@@ -325,7 +325,7 @@ def _k1_worker(job):
   out = r.stdout.split("\n")
   pos = 0
   n = nontrivial = 0
-  okc = errc = 0
+  okc = errc = bind_quirk = 0
   kinds = {}
   dis = []
   for sig, calls, names in meta:
@@ -351,21 +351,30 @@ def _k1_worker(job):
       if spec != real:
         bad = "spec!=call"
       elif bnd[0] != real[0] or (bnd[0] == "ok" and bnd[1] != real[1]):
-        bad = "bind!=call"
+        # CPython 3.12's inspect.Signature.bind wrongly rejects a keyword that names a positional-only
+        # parameter although the signature has **kwargs (the real call accepts it and puts it into the
+        # dict); the real call is the authority, the difference is only counted.
+        if sig["kwargs"] and set(call[1]) & set(sig["posonly"]) and bnd[0] == "err" and real[0] == "ok":
+          bind_quirk += 1
+        else:
+          bad = "bind!=call"
       if bad and len(dis) < 20:
         dis.append({"stage": "K1", "what": bad, "kind": "func", "sig": sig, "call": list(call),
                     "lean_spec": spec, "cpython_call": real, "inspect_bind": bnd,
                     "text": call_repr("func", sig, call)})
       elif bad:
         dis.append(None)
-  return n, nontrivial, okc, errc, kinds, dis
+  return n, nontrivial, okc, errc, kinds, dis, bind_quirk
 
 
 def k1(res, rng, tier, drv):
   sigs = list(enum_sigs())
+  total_sigs = len(sigs)
   perms = tier == "thorough"
   star_names = tier == "thorough"
   rng.shuffle(sigs)
+  if tier == "quick":
+    sigs = sigs[:total_sigs // 3]   # seeded third of the signatures, all their calls
   chunks = [sigs[i::NPROC * 4] for i in range(NPROC * 4)]
   jobs = [(c, rng.randrange(1 << 30), perms, star_names, drv.path) for c in chunks if c]
   with multiprocessing.get_context("fork").Pool(NPROC) as pool:
@@ -377,7 +386,8 @@ def k1(res, rng, tier, drv):
     for k, v in o[4].items():
       kinds[k] = kinds.get(k, 0) + v
   dis = [d for o in outs for d in o[5]]
-  stats = {"signatures": len(sigs), "calls": n, "cpython_ok": sum(o[2] for o in outs),
+  stats = {"signatures": len(sigs), "signatures_in_space": total_sigs, "calls": n,
+           "inspect_bind_rejects_posonly_name_despite_kwargs (py3.12 quirk, real call accepts)": sum(o[6] for o in outs), "cpython_ok": sum(o[2] for o in outs),
            "cpython_typeerror": sum(o[3] for o in outs), "typeerror_kinds": kinds,
            "keyword_orders": "all permutations" if perms else "one seeded order per keyword set",
            "keyword_pool": "parameter names + zz" + (" + names of *args/**kwargs" if star_names else "")}
@@ -726,16 +736,16 @@ def correspond(res, rng, tier):
   t0 = time.time()
   n1, nt1, st1, dis1, ndis1 = k1(res, random.Random(rng.randrange(1 << 30)), tier, drv)
   t1 = time.time()
-  n_modules = 80 if tier == "quick" else 1300
+  n_modules = 120 if tier == "quick" else 1200
   st2, nt2, samples, dis2 = k2(res, random.Random(rng.randrange(1 << 30)), tier, drv, n_modules)
   t2 = time.time()
   res.cov["evaluations"] = n1 + st2["calls"]
   res.cov["distinct_nontrivial"] = nt1 + nt2
   res.cov["exhaustive"] = False
   res.cov["rule"] = (
-      "K1: every signature with <=3 positional-only, <=3 positional-or-keyword, <=3 keyword-only parameters, "
+      "K1: %d of the %d signatures with <=3 positional-only, <=3 positional-or-keyword, <=3 keyword-only parameters, "
       "defaults on every suffix of the positional parameters and every subset of the keyword-only ones, with/without "
-      "*args and **kwargs (3840 signatures) x every call with <=5 positionals and every keyword set of <=3 names from "
+      "*args and **kwargs (quick: a seeded third, thorough: all) x every call with <=5 positionals and every keyword set of <=3 names from "
       "the parameter names + one foreign name (%s; %s): Lean spec cpyBind vs really calling the function in CPython "
       "(outcome, TypeError kind by message, value of every parameter incl. *args tuple and ordered **kwargs dict) and "
       "vs inspect.signature(f).bind; enumeration is duplicate-free, non-trivial = signature has a name and the call an "
@@ -743,7 +753,8 @@ def correspond(res, rng, tier):
       "per kind, 8 positionals, 5+ keywords) through the real pytype VM vs Lean model mapArgs/mapArgsBound: error "
       "class per call line, and for calls without error the argument received by every parameter (callee returns "
       "its frame; one class per argument identifies the flow); non-trivial as above, distinct = distinct "
-      "(kind, signature, call)" % (st1["keyword_orders"], st1["keyword_pool"]))
+      "(kind, signature, call)" % (st1["signatures"], st1["signatures_in_space"], st1["keyword_orders"],
+                                  st1["keyword_pool"]))
   res.cov["distribution"] = {"K1": st1, "K2": st2, "K1_wall_s": round(t1 - t0, 1), "K2_wall_s": round(t2 - t1, 1),
                              "K1_nontrivial": nt1, "K2_distinct_nontrivial": nt2}
   res.add_samples(samples)
@@ -914,7 +925,24 @@ def witnesses(res):
   res.cov["witnesses_replayed"] = replayed
 
 
+def replay(path):
+  """./check C13 --replay FILE: re-evaluates the recorded input with the property's oracle."""
+  import json
+  d = json.load(open(path))
+  inp = d.get("input") or {}
+  if not inp.get("sig"):
+    print("replay file has no concrete input (kind=%s)" % d.get("kind"))
+    return 2
+  case = (inp.get("kind", "func"), inp["sig"], (inp["call"][0], list(inp["call"][1])))
+  bad = oracle_check([case])
+  print("replay %s: %s" % (call_repr(*case), "CPython %s, pytype %s -> VIOLATES" % (bad[0][1], bad[0][2])
+                            if bad else "CPython and pytype agree"))
+  return 1 if bad else 0
+
+
 def main():
+  if os.environ.get("VERIF_REPLAY"):
+    return replay(os.environ["VERIF_REPLAY"])
   return common.run_check(
       "C13", REQUIRED, correspond, witnesses, search,
       trusted=["hand-written model of SignedFunction._map_args and of BoundFunction.call's receiver rule; tied to "
